@@ -550,7 +550,7 @@ def _lossy_value(F, g, bi, paths, payload):
 
 INT_BITS = {"u8": 8, "u16": 16, "u32": 32, "u64": 64, "usize": 64, "u128": 128, "i8": 8, "i16": 16, "i32": 32, "i64": 64, "isize": 64, "i128": 128}
 
-def narrowing_casts(F, rep, rule, prefixes, what):
+def narrowing_casts(F, rep, rule, prefixes, what, sign=False, floor=5):
     """No integer `as` cast to a narrower type in the given modules: such a cast keeps the low bits of an out-of-range value
     (a number silently becomes another number) where a checked conversion would reject it.  A cast whose source is compared
     with something on every path to it may be range-checked: that is left undecided, not reported."""
@@ -561,7 +561,10 @@ def narrowing_casts(F, rep, rule, prefixes, what):
         for bi, si, s in g.stmts():
             if s[0] != "=" or s[2][0] != "cast" or s[2][1] != "IntToInt" or len(s[2]) < 5: continue
             src, dst = s[2][3], s[2][4]
-            if src not in INT_BITS or dst not in INT_BITS or INT_BITS[dst] >= INT_BITS[src]: continue
+            if src not in INT_BITS or dst not in INT_BITS: continue
+            # with sign=True an unsigned -> signed cast of the same width counts too (u64 -> i64 turns values >= 2^63 negative)
+            wraps = sign and src.startswith("u") and dst.startswith("i") and INT_BITS[dst] == INT_BITS[src] and not (src == "usize" or dst == "isize")
+            if INT_BITS[dst] >= INT_BITS[src] and not wraps: continue
             if g.blocks[bi].get("exp"): continue          # inside a macro expansion (derive, format_args)
             n += 1
             site = "%s bb%d line %s" % (g.where(), bi, g.blocks[bi]["line"])
@@ -575,7 +578,7 @@ def narrowing_casts(F, rep, rule, prefixes, what):
             else: rep.bad(rule, "narrowing-cast:" + key, "%s: a %s value is cast to %s with `as` and no range check on the way: a value beyond %s keeps only its low bits (a number is silently replaced by another number)" % (what, src, dst, dst), site)
     if n == 0:
         rep.ok(rule, "no narrowing integer `as` cast in %d functions of %s" % (seen_fns, [x.replace("crate::", "") for x in prefixes]), nontrivial_key="nocast" + ",".join(prefixes))
-    rep.floor(rule, "functions searched for narrowing casts", seen_fns, 5)
+    rep.floor(rule, "functions searched for narrowing casts", seen_fns, floor)
 
 def numeric_classification(F, rep, rule, module, enums, floor):
     """Every construction of <enum>::UInt from parsed text happens only when the text is all ASCII digits and canonical
